@@ -33,6 +33,8 @@ K_INDEX = "buildcode/qualified-INDEX-without-affixes"
 K_DOTNS = "include/null-namespace-tag-then-nested-namespace"
 K_API_RENAME = "api/alter-affixes-fragment-namespace-rename-only-entry-names"
 K_DOTNAME = "entry-list/leading-dot-name-missorted"
+K_NSCRASH = "api/fragment-namespace-crash-parent-suffix"
+K_ARM = "include/endian-arm-flag-not-inherited"
 K_API_STALE = "api/alias-chain-stale-after-forward-target-added"
 
 
@@ -304,6 +306,11 @@ class Gen:
                     inp = rng.choice(["INDEX", "nosuch", "x.INDEX", "f1.r", ".f2", "f3.z"] if self.ge(10) else ["INDEX", "nosuch", "f1", "f1.z", "f2.r"])
                     if self.api and depth and "INDEX" in inp:
                         inp = "nosuch"       # INDEX cannot follow a later change of the affixes
+                metas = [d for d in defs if "/" in d[0]]
+                als = [d for d in defs if d[2] == "A" and "/" not in d[0]]
+                if metas and als and rng.random() < 0.2:
+                    # a subfield named through an alias (chain) as parent part of the code
+                    inp = self.reftok(rng.choice(als), cur) + "/" + rng.choice(metas)[0].split("/", 1)[1]
                 if (self.ver is None or self.ver >= 6) and "/" not in inp and rng.random() < 0.12:
                     inp += rng.choice([".z", ".z", ".r", ".m"])     # representation suffixes (.z from Version 10 on)
                 if rng.random() < 0.3:
@@ -336,7 +343,10 @@ class Gen:
                     if tops:
                         nm = self.reftok(rng.choice(tops), cur) + "/" + nm
                 q = rng.random()
-                if defs and q < 0.62:
+                als0 = [d for d in defs if d[2] == "A" and "/" not in d[0]]
+                if als0 and q < 0.2:
+                    tg = self.reftok(rng.choice(als0), cur)      # chains of two and more aliases
+                elif defs and q < 0.62:
                     tg = self.reftok(rng.choice(defs), cur)
                 elif q < 0.72:
                     tg = "nosuch" + str(rng.randint(1, 3))
@@ -597,6 +607,42 @@ WITNESS = {
 }
 
 
+def fixed_witnesses(chk, exe, root):
+    """two recorded findings outside the model: replayed from fixed files on every run"""
+    # (a) gd_fragment_namespace on a fragment whose parent has a suffix
+    d = os.path.join(root, "wa")
+    os.makedirs(d)
+    open(os.path.join(d, "inc1.fmt"), "w").write("/INCLUDE inc2.fmt\n")
+    open(os.path.join(d, "inc2.fmt"), "w").write("f1 RAW UINT16 1\n")
+    script = "NEW\t%s\nENC\t1\t0\nINC\tinc1.fmt\t-\tS\t0\nNS\t2\tM\n" % d
+    open(d + ".script", "w").write(script)
+    rc, out = vlib.sh([exe], inp=("@%s.script\n" % d).encode(), timeout=120)
+    if "IMPL CRASH" in out:
+        chk.violation(K_NSCRASH, "gd_fragment_namespace(D, 2, \"M\") on a fragment whose parent was included with suffix S crashes "
+                      "(_GD_UpdateAffixes copies the parent's suffix into an unallocated buffer)",
+                      {"kind": "crash", "script": script, "files": {"inc1.fmt": "/INCLUDE inc2.fmt\n", "inc2.fmt": "f1 RAW UINT16 1\n"}}, found=True)
+    elif "E =M.f1S " not in out:
+        chk.violation("api/fragment-namespace-nested", "gd_fragment_namespace(D, 2, \"M\") below a suffixed parent does not give M.f1S: " + out[:300],
+                      {"kind": "impl-vs-spec", "script": script}, found=True)
+    # (b) /ENDIAN big arm: the arm token is part of the directive, which has fragment scope
+    d = os.path.join(root, "wb")
+    os.makedirs(d)
+    files = {"format": "/VERSION 10\n/ENDIAN big arm\n/INCLUDE sub1.fmt\n",
+             "sub1.fmt": "a RAW FLOAT64 1\n/INCLUDE sub3.fmt\n", "sub3.fmt": "/ENDIAN big\nc RAW FLOAT64 1\n"}
+    for k, v in files.items():
+        open(os.path.join(d, k), "w").write(v)
+    rc, out = vlib.sh([exe], inp=(d + "\n").encode(), timeout=120)
+    arm = dict(l.split()[1:] for l in out.split("\n") if l.startswith("R "))
+    want = {"0": "arm=1", "1": "arm=1", "2": "arm=0"}   # sub1 inherits big arm; sub3 has its own /ENDIAN big
+    if arm and arm.get("1") != want["1"]:
+        chk.violation(K_ARM, "/ENDIAN big arm before /INCLUDE: the included fragment is big-endian but not ARM-endian (%s)" % arm,
+                      {"kind": "impl-vs-spec", "files": files, "observed": arm}, found=True)
+    elif arm and arm != want:
+        chk.violation("include/endian-arm-scope", "ARM flag of the fragments %s, expected %s" % (arm, want), {"kind": "impl-vs-spec", "files": files}, found=True)
+    elif not arm:
+        chk.violation("include/endian-arm-scope", "no fragment is ARM-endian after /ENDIAN big arm: " + out[:200], {"kind": "impl-vs-spec", "files": files}, found=True)
+
+
 # ------------------------------------------------------------- comparison
 def parse_blocks(text):
     """-> list of blocks; a block = (status, frag lines, entry lines (sorted), ref, xlines)"""
@@ -606,7 +652,7 @@ def parse_blocks(text):
             if cur is not None and ln.endswith("CRASH"):
                 cur["status"] = "CRASH"      # crashed after printing part of a block
                 continue
-            cur = {"tag": ln.split()[0], "status": ln.split()[1], "F": [], "E": [], "REF": None, "X": [], "ATTR": None, "G": [], "N": ""}
+            cur = {"tag": ln.split()[0], "status": ln.split()[1], "F": [], "E": [], "REF": None, "X": [], "ATTR": None, "G": [], "N": "", "Q": []}
         elif ln == "END":
             if cur is not None:
                 blocks.append(cur)
@@ -625,6 +671,8 @@ def parse_blocks(text):
                 cur["X"].append(ln)
             elif ln.startswith("G "):
                 cur["G"].append(ln)
+            elif ln.startswith("Q "):
+                cur["Q"].append(ln)
             elif ln.startswith("N "):
                 cur["N"] = ln
     return blocks
@@ -633,7 +681,7 @@ def parse_blocks(text):
 def canon(b):
     if b["status"] != "OK":
         return b["status"]
-    return "\n".join(["OK"] + b["F"] + sorted(b["E"]) + [b["REF"] or "REF ?"] + sorted(b["G"]))
+    return "\n".join(["OK"] + b["F"] + sorted(b["E"]) + [b["REF"] or "REF ?"] + sorted(b["Q"]) + sorted(b["G"]))
 
 
 def main():
@@ -713,6 +761,7 @@ def main():
         files = dict(files); files["<api script>"] = script
         post = any(l.startswith(("AFFIX\t", "NS\t")) for l in script.split("\n"))
         trees.append(t); tags.append("api-post" if post else "api"); dirs.append("@" + sp); filesets.append(files)
+    fixed_witnesses(chk, exe, root)
     rc1, out1 = vlib.sh([exe], inp=("\n".join(dirs) + "\n").encode(), timeout=1500)
     rc2, out2 = vlib.sh([drv], inp=("\n".join(ser_tree(t) for t in trees) + "\n").encode(), timeout=3000)
     IB = parse_blocks(out1)
